@@ -51,7 +51,7 @@ struct Run : ContBase {
     }
     void check_flat(bool asstring) {
         qlist_t *li = inner();
-        errno = 0;
+        errno = poison;
         if (!asstring) {
             size_t sz = 12345; void *p = kind == 3 ? qgrow_toarray(g, &sz) : qlist_toarray(li, &sz);
             int e = errno;
@@ -83,7 +83,7 @@ struct Run : ContBase {
         long pos = idx < 0 ? n + idx + 1 : idx;
         bool full = maxn > 0 && m.size() >= maxn;
         bool inrange = pos >= 0 && pos <= n;
-        errno = 0;
+        errno = poison;
         bool ok = bad ? qlist_addat(l, (int)idx, s.boolean() ? nullptr : vb.p, 0)
                       : api == 0 ? qlist_addfirst(l, vb.p, vb.n) : api == 1 ? qlist_addlast(l, vb.p, vb.n) : qlist_addat(l, (int)idx, vb.p, vb.n);
         int e = errno;
@@ -103,7 +103,7 @@ struct Run : ContBase {
         bool newmem = s.boolean();
         long n = (long)m.size(); long pos = idx < 0 ? n + idx : idx;
         size_t sz = 4242;
-        errno = 0;
+        errno = poison;
         void *p = api == 0 ? qlist_getfirst(l, &sz, newmem) : api == 1 ? qlist_getlast(l, &sz, newmem) : qlist_getat(l, (int)idx, &sz, newmem);
         int e = errno;
         c.op("%s(%ld,newmem=%d) n=%ld", api == 0 ? "getfirst" : api == 1 ? "getlast" : "getat", idx, (int)newmem, n);
@@ -121,7 +121,7 @@ struct Run : ContBase {
         long n = (long)m.size(); long pos = idx < 0 ? n + idx : idx;
         bool valid = pos >= 0 && pos < n;
         size_t sz = 4242; void *p = nullptr; bool ok = false;
-        errno = 0;
+        errno = poison;
         if (pop) { p = api == 0 ? qlist_popfirst(l, &sz) : api == 1 ? qlist_poplast(l, &sz) : qlist_popat(l, (int)idx, &sz); ok = p != nullptr; }
         else ok = api == 0 ? qlist_removefirst(l) : api == 1 ? qlist_removelast(l) : qlist_removeat(l, (int)idx);
         int e = errno;
@@ -141,7 +141,7 @@ struct Run : ContBase {
         c.op("walk(newmem=%d) n=%zu", (int)newmem, m.size());
         qlist_obj_t o; memset(&o, 0, sizeof o);
         size_t i = 0;
-        errno = 0;
+        errno = poison;
         while (qlist_getnext(inner(), &o, newmem)) {
             if (i >= m.size()) c.fail(FUNC, "list:walk-extra", "walk returned more than %zu elements", m.size());
             if (o.size != m[i].size() || memcmp(o.data, m[i].data(), o.size) != 0) c.fail(FUNC, "list:walk-order", "walk step %zu returned %s, expected %s", i, hexs(o.data, o.size, 12).c_str(), hexs(m[i], 12).c_str());
@@ -165,7 +165,7 @@ struct Run : ContBase {
         int api = (int)s.pick({3, 2, 2});
         bool full = maxn > 0 && m.size() >= maxn;
         std::string v; bool ok;
-        errno = 0;
+        errno = poison;
         if (api == 0) { v = gen_elem(false); Buf vb(v); ok = kind == 1 ? qqueue_push(q, vb.p, vb.n) : qstack_push(st, vb.p, vb.n); if (scribble) vb.scribble(); }
         else if (api == 1) { std::string t = gen_val(true, 40); Buf *b = Buf::cstr(t); ok = kind == 1 ? qqueue_pushstr(q, b->c()) : qstack_pushstr(st, b->c()); if (scribble) b->scribble(); delete b; v = t + std::string(1, '\0'); }
         else { int64_t n = s.pick({1, 1, 4}) == 2 ? (int64_t)s.range(-1000000, 1000000) : (s.boolean() ? INT64_MAX : INT64_MIN); ok = kind == 1 ? qqueue_pushint(q, n) : qstack_pushint(st, n); v.assign((const char *)&n, sizeof n); }
@@ -187,7 +187,7 @@ struct Run : ContBase {
         bool valid = pos >= 0 && pos < n;
         bool newmem = s.boolean();
         size_t sz = 777; void *p = nullptr; int64_t iv = 0;
-        errno = 0;
+        errno = poison;
         if (api == 0) p = pop ? (kind == 1 ? qqueue_pop(q, &sz) : qstack_pop(st, &sz)) : (kind == 1 ? qqueue_get(q, &sz, newmem) : qstack_get(st, &sz, newmem));
         else if (api == 1) { p = pop ? (void *)(kind == 1 ? qqueue_popstr(q) : qstack_popstr(st)) : (void *)(kind == 1 ? qqueue_getstr(q) : qstack_getstr(st)); newmem = true; }
         else if (api == 2) iv = pop ? (kind == 1 ? qqueue_popint(q) : qstack_popint(st)) : (kind == 1 ? qqueue_getint(q) : qstack_getint(st));
@@ -221,6 +221,7 @@ struct Run : ContBase {
     }
 
     void run() {
+        draw_poison();
         kind = (int)s.pick({6, 2, 2, 2});
         vf_ledger_on = 1;
         if (kind == 0) l = qlist(0); else if (kind == 1) q = qqueue(0); else if (kind == 2) st = qstack(0); else g = qgrow(0);
